@@ -149,8 +149,9 @@ def run(ctx):
     rk = get_arg(rcall, 1, 'requiredkeys')
     val = None
     if rk is not None:
+        rk = inline(reader, rk)
         try:
-            val = const_eval(rk, {})
+            val = const_eval(rk, reader.module.consts)
         except ValueError:
             if isinstance(rk, ast.Name):
                 for v, _ in defs_of(reader.node, rk.id):
